@@ -28,6 +28,9 @@ impl<'a> R<'a> {
     }
 
     fn pick_uri(&mut self) -> String {
+        if self.cfg.shadowing {
+            return self.pick(&["urn:a", "urn:b"]).to_string();
+        }
         if self.cfg.uri_refs && self.rng.chance(1, 2) {
             self.feat("uri-needs-refs");
             self.pick(URIS_REF).to_string()
@@ -37,11 +40,14 @@ impl<'a> R<'a> {
     }
 
     pub fn gen_elem(&mut self, scope: &[(String, String)], depth: usize, path: &[usize]) -> AElem {
-        let mut ns = if self.rng.chance(2, 5) { String::new() } else { self.pick_uri() };
+        let mut ns = if self.rng.chance(2, 5) && !self.cfg.shadowing { String::new() } else { self.pick_uri() };
         let local = self.pick(ELEM_LOCALS).to_string();
         let mut decls: Vec<(String, String)> = vec![];
+        if self.cfg.shadowing {
+            self.feat("shadowing-mode");
+        }
         for _ in 0..*self.rng.pick(&[0usize, 0, 0, 1, 1, 2]) {
-            let p = self.pick(PREFIXES).to_string();
+            let p = if self.cfg.shadowing { self.pick(&["p", "p", "q"]).to_string() } else { self.pick(PREFIXES).to_string() };
             if decls.iter().any(|d| d.0 == p) {
                 continue;
             }
@@ -85,7 +91,7 @@ impl<'a> R<'a> {
         let mut attrs: Vec<(String, String, String)> = vec![];
         let mut has_xmlid = false;
         for _ in 0..*self.rng.pick(&[0usize, 0, 1, 1, 2, 3]) {
-            let k = if self.cfg.xml_alias && self.rng.chance(1, 3) { 10 } else { self.rng.below(12) };
+            let k = if self.cfg.shadowing && self.rng.chance(2, 3) { 6 } else if self.cfg.xml_alias && self.rng.chance(1, 3) { 10 } else { self.rng.below(12) };
             let (ans, aloc) = match k {
                 0..=5 => (String::new(), self.pick(ATTR_LOCALS).to_string()),
                 6..=8 => (self.pick_uri(), self.pick(ATTR_LOCALS).to_string()),
